@@ -45,6 +45,7 @@ func TestExh_C11(t *testing.T) {
 							rec.Record(raw, o)
 							n++
 							if o.Fail != "" {
+								exhFailed.Store(true)
 								t.Fatalf("C11 (sweep): %s\ncase: %s", o.Fail, raw)
 							}
 						}
